@@ -6,6 +6,7 @@ From Verif Require Import Lib.Params Lib.Octets Model.Outcome Model.Utils Model.
   Proofs.HashDomainProofs.
 From Verif Require Proofs.GapHash Proofs.PoseidonConforms.
 From Verif Require Gen.BigIntRoutines Proofs.BigIntEqHash Proofs.BigIntEqUtils.
+From Verif Require Gen.BigIntLoops Proofs.BigIntEqLoopsMisc.
 Local Open Scope Z_scope.
 
 Notation inF := (fun v : Z => 0 <= v < q).
@@ -87,6 +88,14 @@ Theorem C07_generic_panic_iff : forall iv arr n,
   HashGeneric iv arr n = Panic <-> n <= 0 /\ arr <> nil /\ Forall inF arr.
 Proof. exact GapHash.mimc7_HashGeneric_panic_iff. Qed.
 
+(* ---- the LOOPS of the Go source: tools/bigintgen re-translates the whole functions, loops
+   included, at every run (Gen/BigIntLoops.v: a Go `for` becomes a fold over its index range
+   with the loop-carried variables as accumulator); the translated function equals the model
+   the theorems above are about ---- *)
+Theorem C07_range_check_loop_is_the_source : forall arr,
+  BigIntLoops.utils_CheckBigIntArrayInField arr = CheckBigIntArrayInField Gen.CurveConsts.Q arr.
+Proof. exact BigIntEqLoopsMisc.gen_utils_CheckBigIntArrayInField_eq. Qed.
+
 Print Assumptions C07_poseidon_accepts_iff.
 Print Assumptions C07_poseidon_never_panics.
 Print Assumptions C07_poseidon_wrappers.
@@ -98,3 +107,4 @@ Print Assumptions C07_guards_are_the_source.
 Print Assumptions C07_ok_length.
 Print Assumptions C07_tables_shape.
 Print Assumptions C07_generic_panic_iff.
+Print Assumptions C07_range_check_loop_is_the_source.
